@@ -203,7 +203,8 @@ CHECKS = {
         "technique": "rapid property-based testing with generated fault sequences; expected deviations observed independently through the OS and compared with the parsed wounds file and the fail-fast verdict",
         "level_text": ("Generated builds + 0-4 damages (bit flips at first/last byte of a block or of the file, truncation/extension around block "
                        "boundaries, emptied/deleted entries, content in an expected-empty file, kind swaps incl. subtree-hiding ones, retargeted "
-                       "symlinks). An independent observer (Lstat/ReadFile per signed entry) lists deviations. Oracles, both directions: deviating => "
+                       "symlinks, three bytes changed so that the block keeps its rolling hash). In a quarter of the cases the signature is not the directly computed one but read back "
+                       "(pwr.ReadSignature) from the signature stream a diff wrote. An independent observer (Lstat/ReadFile per signed entry) lists deviations. Oracles, both directions: deviating => "
                        "error or >=1 wound + HasWounds, every differing block offset inside a FILE wound of that index, shorter/longer/missing files "
                        "and deviating dirs/symlinks named by a wound, every wound well-formed (known kind, index in range, 0<=start<=end); "
                        "identical => nil, no wounds; fail-fast errs iff deviating."),
@@ -220,7 +221,7 @@ CHECKS = {
         "level": "exploration",
         "technique": "rapid property-based testing with generated fault sequences and schedule perturbation (GOMAXPROCS, consumer-callback jitter, repetition); independent post-heal observer",
         "level_text": ("C05's damage generator plus 'directory empty' and 'directory missing'; archive = archiver.CompressZip of the pristine build (stored entries) or, "
-                       "in one third of the cases, an ordinary deflate-compressed zip of it written by the standard library, whose readers return their last bytes together with io.EOF. "
+                       "in one third of the cases, an ordinary deflate-compressed zip of it written by the standard library, whose readers return their last bytes together with io.EOF; in a quarter the signature is read back from a signature stream instead of computed. "
                        "Validate{HealPath} must return nil within the watchdog; afterwards an independent observer must find every signed entry with "
                        "the right kind/bytes/destination (extras allowed) and AssertValid must pass. An already valid directory must be untouched "
                        "(strong snapshot) and TotalHealed()==0. GOMAXPROCS in {1,2,4,16}, sleeps/yields injected through the Consumer callbacks, 2 repetitions."),
